@@ -23,8 +23,10 @@ def run(tier):
         sw2 = []
         for c in sweeps:
             head, exp = c.split(' | ')
-            w = int(head.split()[2])
-            sw2.append(head + (' 2' if w <= 32 else ' 1') + ' | ' + exp)
+            f = head.split()
+            kind, w, order = int(f[1]), int(f[2]), int(f[3])
+            # all 2^32 values for the unsigned 32-bit big- and little-endian pair; all 2^24 low-bit patterns for every function
+            sw2.append(head + (' 2' if (w == 32 and kind == 0 and order in (0, 1)) or w <= 24 else ' 1') + ' | ' + exp)
         sweeps = sw2
     scripts = [others[i:i + 500] for i in range(0, len(others), 500)] + [[s] for s in sweeps]
     res = vf.run_scripts('endian', scripts, 'C15', name='endian')
